@@ -530,9 +530,16 @@ structure ExportedSet where
   name : String
   logN : Nat
   xsH : Nat
+  /-- part of `exported_within_table` (false for the informational `…:ephemeral` rows) -/
+  checked : Bool
+  /-- recorded finding: this set is above the table -/
+  above : Bool
   q : List Nat
   p : List Nat
-  deriving Repr, DecidableEq
+  deriving Repr
+
+def ExportedSet.same (s : ExportedSet) (name : String) (logN xsH : Nat) (q p : List Nat) : Bool :=
+  s.name == name && s.logN == logN && s.xsH == xsH && s.q == q && s.p == p
 
 def ExportedSet.within (s : ExportedSet) : Bool := withinTable s.logN s.xsH s.q s.p
 
@@ -541,152 +548,143 @@ def ExportedSet.within (s : ExportedSet) : Bool := withinTable s.logN s.xsH s.q 
    still produces exactly these sets, so a change of the library's literals breaks the tie. -/
 -- BEGIN GENERATED exportedSets
 def exportedSets : List ExportedSet := [
-  { name := "rlwe.ExampleParametersLogN14LogQP438", logN := 14, xsH := 0,
+  { name := "rlwe.ExampleParametersLogN14LogQP438", logN := 14, xsH := 0, checked := true, above := false,
     q := [35184376545281, 34359214081, 34362359809, 34357116929, 34356068353],
     p := [1125899902124033, 1125899915231233] },
-  { name := "bgv.ExampleParameters128BitLogN14LogQP438", logN := 14, xsH := 0,
+  { name := "bgv.ExampleParameters128BitLogN14LogQP438", logN := 14, xsH := 0, checked := true, above := false,
     q := [1099511922689, 536903681, 536641537, 537133057, 536608769, 536543233, 537296897, 536215553, 537591809, 537722881, 535920641, 537886721],
     p := [1099512938497, 549755486209] },
-  { name := "ckks.ExampleParameters128BitLogN14LogQP438", logN := 14, xsH := 0,
+  { name := "ckks.ExampleParameters128BitLogN14LogQP438", logN := 14, xsH := 0, checked := true, above := false,
     q := [36028797019488257, 35184372744193, 35184373006337, 35184373989377, 35184368877569, 35184368025601, 35184376545281],
     p := [36028797020209153, 36028797017456641] },
-  { name := "examples.BGVParamsN12QP109", logN := 12, xsH := 0,
+  { name := "examples.BGVParamsN12QP109", logN := 12, xsH := 0, checked := true, above := false,
     q := [549755731969, 2147565569],
     p := [549755904001] },
-  { name := "examples.BGVParamsN13QP218", logN := 13, xsH := 0,
+  { name := "examples.BGVParamsN13QP218", logN := 13, xsH := 0, checked := true, above := false,
     q := [4398046150657, 8589852673, 8590163969, 8590245889, 8589475841],
     p := [17592186028033] },
-  { name := "examples.BGVParamsN14QP438", logN := 14, xsH := 0,
+  { name := "examples.BGVParamsN14QP438", logN := 14, xsH := 0, checked := true, above := false,
     q := [17592186175489, 17179967489, 17179672577, 17180262401, 17180295169, 17180393473, 17179410433, 17180557313, 17180950529, 17178525697],
     p := [17592186273793, 17592186372097] },
-  { name := "examples.BGVParamsN15QP880", logN := 15, xsH := 0,
+  { name := "examples.BGVParamsN15QP880", logN := 15, xsH := 0, checked := true, above := false,
     q := [140737488486401, 17179672577, 17180262401, 17179410433, 17180393473, 17181442049, 17183014913, 17176854529, 17183408129, 17183932417, 17175674881, 17174691841, 17185570817, 17186357249, 17173774337, 17186947073, 17172791297, 17187667969, 17172594689, 17188126721],
     p := [140737487306753, 140737486716929, 140737486520321, 140737485864961] },
-  { name := "examples.BGVScaleInvariantParamsN12QP109", logN := 12, xsH := 0,
+  { name := "examples.BGVScaleInvariantParamsN12QP109", logN := 12, xsH := 0, checked := true, above := false,
     q := [549755731969, 549755904001],
     p := [2147565569] },
-  { name := "examples.BGVScaleInvariantParamsN13QP218", logN := 13, xsH := 0,
+  { name := "examples.BGVScaleInvariantParamsN13QP218", logN := 13, xsH := 0, checked := true, above := false,
     q := [36028797018652673, 18014398508400641, 18014398510645249],
     p := [36028797019389953] },
-  { name := "examples.BGVScaleInvariantParamsN14QP438", logN := 14, xsH := 0,
+  { name := "examples.BGVScaleInvariantParamsN14QP438", logN := 14, xsH := 0, checked := true, above := false,
     q := [36028797019389953, 36028797019488257, 36028797020209153, 18014398508400641, 18014398510661633, 18014398508138497],
     p := [72057594038321153, 36028797017456641] },
-  { name := "examples.BGVScaleInvariantParamsN15QP880", logN := 15, xsH := 0,
+  { name := "examples.BGVScaleInvariantParamsN15QP880", logN := 15, xsH := 0, checked := true, above := false,
     q := [1152921504606584833, 1152921504608747521, 576460752301785089, 288230376154267649, 288230376155185153, 288230376155250689, 288230376147582977, 288230376147386369, 288230376147320833, 288230376156758017, 288230376157413377, 288230376158396417],
     p := [1152921504614055937, 1152921504598720513, 1152921504615628801] },
-  { name := "examples.CKKSComplexParamsN12QP109", logN := 12, xsH := 0,
+  { name := "examples.CKKSComplexParamsN12QP109", logN := 12, xsH := 0, checked := true, above := false,
     q := [274877816833, 4294991873],
     p := [549755731969] },
-  { name := "examples.CKKSComplexParamsN13QP218", logN := 13, xsH := 0,
+  { name := "examples.CKKSComplexParamsN13QP218", logN := 13, xsH := 0, checked := true, above := false,
     q := [8589852673, 1073692673, 1073643521, 1073872897, 1073971201, 1073479681],
     p := [34359754753] },
-  { name := "examples.CKKSComplexParamsN14QP438", logN := 14, xsH := 0,
+  { name := "examples.CKKSComplexParamsN14QP438", logN := 14, xsH := 0, checked := true, above := false,
     q := [35184372121601, 17179967489, 17179672577, 17180262401, 17180295169, 17180393473, 17179410433, 17180557313, 17180950529, 17178525697],
     p := [17592186175489, 8796092858369] },
-  { name := "examples.CKKSComplexParamsN15QP881", logN := 15, xsH := 0,
+  { name := "examples.CKKSComplexParamsN15QP881", logN := 15, xsH := 0, checked := true, above := false,
     q := [2251799813554177, 1099512938497, 1099510054913, 1099514314753, 1099507695617, 1099515691009, 1099516280833, 1099516542977, 1099516870657, 1099506515969, 1099518246913, 1099504549889, 1099503894529, 1099503370241, 1099520606209, 1099502714881, 1099502518273, 1099521458177],
     p := [1125899908022273, 1125899908612097, 1125899904679937] },
-  { name := "examples.CKKSComplexParamsPN16QP1761", logN := 16, xsH := 0,
+  { name := "examples.CKKSComplexParamsPN16QP1761", logN := 16, xsH := 0, checked := true, above := false,
     q := [72057594038321153, 35184372744193, 35184373006337, 35184368025601, 35184376545281, 35184377331713, 35184378511361, 35184379035649, 35184365273089, 35184380870657, 35184363569153, 35184382967809, 35184383229953, 35184383754241, 35184385196033, 35184358850561, 35184386899969, 35184388734977, 35184355704833, 35184353083393, 35184351772673, 35184394240001, 35184350330881, 35184398958593, 35184399351809, 35184346267649, 35184345088001, 35184343908353, 35184404070401, 35184339320833, 35184337354753, 35184410361857, 35184411279361, 35184412065793],
     p := [36028797019488257, 36028797023420417, 36028797014376449, 36028797024206849] },
-  { name := "examples.CKKSRealParamsN12QP109", logN := 12, xsH := 0,
+  { name := "examples.CKKSRealParamsN12QP109", logN := 12, xsH := 0, checked := true, above := false,
     q := [274878136321, 4295049217],
     p := [549755731969] },
-  { name := "examples.CKKSRealParamsN13QP218", logN := 13, xsH := 0,
+  { name := "examples.CKKSRealParamsN13QP218", logN := 13, xsH := 0, checked := true, above := false,
     q := [8590163969, 1073643521, 1073872897, 1073971201, 1073479681, 1074266113],
     p := [34359771137] },
-  { name := "examples.CKKSRealParamsN14QP438", logN := 14, xsH := 0,
+  { name := "examples.CKKSRealParamsN14QP438", logN := 14, xsH := 0, checked := true, above := false,
     q := [70368744570881, 17179672577, 17180262401, 17179410433, 17180393473, 17181442049, 17183014913, 17176854529, 17183408129, 17183932417],
     p := [8796093349889, 8796090597377] },
-  { name := "examples.CKKSRealParamsN15QP881", logN := 15, xsH := 0,
+  { name := "examples.CKKSRealParamsN15QP881", logN := 15, xsH := 0, checked := true, above := false,
     q := [2251799813554177, 1099512938497, 1099510054913, 1099507695617, 1099515691009, 1099516870657, 1099506515969, 1099504549889, 1099503894529, 1099503370241, 1099502714881, 1099521458177, 1099522375681, 1099500617729, 1099523555329, 1099499569153, 1099499175937, 1099525128193],
     p := [1125899908022273, 1125899903827969, 1125899911168001] },
-  { name := "examples.CKKSRealParamsPN16QP1761", logN := 16, xsH := 0,
+  { name := "examples.CKKSRealParamsPN16QP1761", logN := 16, xsH := 0, checked := true, above := false,
     q := [72057594036879361, 35184376545281, 35184377331713, 35184365273089, 35184385196033, 35184350330881, 35184399351809, 35184345088001, 35184404070401, 35184339320833, 35184410361857, 35184414031873, 35184415080449, 35184415866881, 35184330145793, 35184329097217, 35184423731201, 35184320708609, 35184318087169, 35184316776449, 35184430022657, 35184430809089, 35184314941441, 35184436314113, 35184440246273, 35184307077121, 35184440770561, 35184306290689, 35184446537729, 35184301047809, 35184297639937, 35184452567041, 35184454402049, 35184454926337],
     p := [36028797019488257, 36028797023420417, 36028797024206849, 36028797005856769] },
-  { name := "bootstrapping.N16QP1546H192H32:residual", logN := 16, xsH := 192,
+  { name := "bootstrapping.N16QP1546H192H32:residual", logN := 16, xsH := 192, checked := true, above := false,
     q := [1152921504606584833, 1099512938497, 1099510054913, 1099507695617, 1099515691009, 1099516870657, 1099506515969, 1099504549889, 1099503894529, 1099503370241],
     p := [2305843009211596801, 2305843009210023937, 2305843009208713217, 2305843009202159617, 2305843009201242113] },
-  { name := "bootstrapping.N16QP1546H192H32:bootstrapping", logN := 16, xsH := 192,
+  { name := "bootstrapping.N16QP1546H192H32:bootstrapping", logN := 16, xsH := 192, checked := true, above := false,
     q := [1152921504606584833, 1099512938497, 1099510054913, 1099507695617, 1099515691009, 1099516870657, 1099506515969, 1099504549889, 1099503894529, 1099503370241, 549754109953, 549753978881, 549753716737, 1152921504614055937, 1152921504598720513, 1152921504615628801, 1152921504616808449, 1152921504597016577, 1152921504595968001, 1152921504618381313, 1152921504620347393, 72057594038321153, 72057594036879361, 72057594035306497, 72057594040680449],
     p := [2305843009211596801, 2305843009210023937, 2305843009218281473, 2305843009208713217, 2305843009218936833] },
-  { name := "bootstrapping.N16QP1546H192H32:ephemeral", logN := 16, xsH := 32,
+  { name := "bootstrapping.N16QP1546H192H32:ephemeral", logN := 16, xsH := 32, checked := false, above := false,
     q := [1152921504606584833],
     p := [2305843009211596801] },
-  { name := "bootstrapping.N16QP1547H192H32:residual", logN := 16, xsH := 192,
+  { name := "bootstrapping.N16QP1547H192H32:residual", logN := 16, xsH := 192, checked := true, above := false,
     q := [1152921504606584833, 35184372744193, 35184373006337, 35184368025601, 35184376545281, 35184377331713],
     p := [2305843009211596801, 2305843009210023937, 2305843009208713217, 2305843009202159617] },
-  { name := "bootstrapping.N16QP1547H192H32:bootstrapping", logN := 16, xsH := 192,
+  { name := "bootstrapping.N16QP1547H192H32:bootstrapping", logN := 16, xsH := 192, checked := true, above := false,
     q := [1152921504606584833, 35184372744193, 35184373006337, 35184368025601, 35184376545281, 35184377331713, 4398044938241, 4398043496449, 4398042972161, 1152921504614055937, 1152921504598720513, 1152921504615628801, 1152921504616808449, 1152921504597016577, 1152921504595968001, 1152921504618381313, 1152921504620347393, 1152921504592822273, 1152921504592429057, 1152921504622575617, 288230376155250689, 288230376147386369, 288230376158396417, 288230376160755713],
     p := [2305843009211596801, 2305843009210023937, 2305843009218281473, 2305843009208713217] },
-  { name := "bootstrapping.N16QP1547H192H32:ephemeral", logN := 16, xsH := 32,
+  { name := "bootstrapping.N16QP1547H192H32:ephemeral", logN := 16, xsH := 32, checked := false, above := false,
     q := [1152921504606584833],
     p := [2305843009211596801] },
-  { name := "bootstrapping.N16QP1553H192H32:residual", logN := 16, xsH := 192,
+  { name := "bootstrapping.N16QP1553H192H32:residual", logN := 16, xsH := 192, checked := true, above := false,
     q := [36028797019488257, 1152921504606584833, 1152921504614055937, 1152921504598720513, 1152921504615628801, 1152921504616808449, 1152921504597016577, 1152921504595968001],
     p := [2305843009211596801, 2305843009210023937, 2305843009208713217, 2305843009202159617, 2305843009201242113] },
-  { name := "bootstrapping.N16QP1553H192H32:bootstrapping", logN := 16, xsH := 192,
+  { name := "bootstrapping.N16QP1553H192H32:bootstrapping", logN := 16, xsH := 192, checked := true, above := false,
     q := [36028797019488257, 1152921504606584833, 1152921504614055937, 1152921504598720513, 1152921504615628801, 1152921504616808449, 1152921504597016577, 1152921504595968001, 1152921504618381313, 1152921504620347393, 36028797023420417, 36028797014376449, 36028797024206849, 36028797013327873, 36028797025124353, 36028797010444289, 36028797032202241, 36028797005856769, 9007199255658497, 9007199256051713, 9007199257362433, 9007199252119553],
     p := [2305843009211596801, 2305843009210023937, 2305843009218281473, 2305843009208713217] },
-  { name := "bootstrapping.N16QP1553H192H32:ephemeral", logN := 16, xsH := 32,
+  { name := "bootstrapping.N16QP1553H192H32:ephemeral", logN := 16, xsH := 32, checked := false, above := false,
     q := [36028797019488257],
     p := [2305843009211596801] },
-  { name := "bootstrapping.N15QP768H192H32:residual", logN := 15, xsH := 192,
+  { name := "bootstrapping.N15QP768H192H32:residual", logN := 15, xsH := 192, checked := true, above := false,
     q := [8589475841, 1125899908022273, 33292289],
     p := [2251799813554177, 2251799814799361] },
-  { name := "bootstrapping.N15QP768H192H32:bootstrapping-with-LogN15", logN := 15, xsH := 192,
+  { name := "bootstrapping.N15QP768H192H32:bootstrapping-with-LogN15", logN := 15, xsH := 192, checked := true, above := true,
     q := [8589475841, 1125899908022273, 33292289, 1152921504606584833, 1125899908612097, 1125899904679937, 1125899909398529, 1125899903827969, 1125899910316033, 1125899903500289, 1125899903107073, 1125899911168001, 562949952700417, 562949954142209],
     p := [2305843009214414849, 2305843009211662337, 2305843009211596801] },
-  { name := "bootstrapping.N15QP768H192H32:ephemeral", logN := 15, xsH := 32,
+  { name := "bootstrapping.N15QP768H192H32:ephemeral", logN := 15, xsH := 32, checked := false, above := false,
     q := [8589475841],
     p := [2305843009214414849] },
-  { name := "bootstrapping.N16QP1767H32768H32:residual", logN := 16, xsH := 32768,
+  { name := "bootstrapping.N16QP1767H32768H32:residual", logN := 16, xsH := 32768, checked := true, above := false,
     q := [1152921504606584833, 1099512938497, 1099510054913, 1099507695617, 1099515691009, 1099516870657, 1099506515969, 1099504549889, 1099503894529, 1099503370241, 1099502714881, 1099521458177, 1099522375681, 1099500617729],
     p := [2305843009211596801, 2305843009210023937, 2305843009208713217, 2305843009202159617, 2305843009201242113, 2305843009200586753] },
-  { name := "bootstrapping.N16QP1767H32768H32:bootstrapping", logN := 16, xsH := 32768,
+  { name := "bootstrapping.N16QP1767H32768H32:bootstrapping", logN := 16, xsH := 32768, checked := true, above := false,
     q := [1152921504606584833, 1099512938497, 1099510054913, 1099507695617, 1099515691009, 1099516870657, 1099506515969, 1099504549889, 1099503894529, 1099503370241, 1099502714881, 1099521458177, 1099522375681, 1099500617729, 549754109953, 549753978881, 549753716737, 1152921504614055937, 1152921504598720513, 1152921504615628801, 1152921504616808449, 1152921504597016577, 1152921504595968001, 1152921504618381313, 1152921504620347393, 72057594038321153, 72057594036879361, 72057594035306497, 72057594040680449],
     p := [2305843009211596801, 2305843009210023937, 2305843009218281473, 2305843009208713217, 2305843009218936833] },
-  { name := "bootstrapping.N16QP1767H32768H32:ephemeral", logN := 16, xsH := 32,
+  { name := "bootstrapping.N16QP1767H32768H32:ephemeral", logN := 16, xsH := 32, checked := false, above := false,
     q := [1152921504606584833],
     p := [2305843009211596801] },
-  { name := "bootstrapping.N16QP1788H32768H32:residual", logN := 16, xsH := 32768,
+  { name := "bootstrapping.N16QP1788H32768H32:residual", logN := 16, xsH := 32768, checked := true, above := false,
     q := [1152921504606584833, 35184372744193, 35184373006337, 35184368025601, 35184376545281, 35184377331713, 35184378511361, 35184379035649, 35184365273089, 35184380870657],
     p := [2305843009211596801, 2305843009210023937, 2305843009208713217, 2305843009202159617, 2305843009201242113] },
-  { name := "bootstrapping.N16QP1788H32768H32:bootstrapping", logN := 16, xsH := 32768,
+  { name := "bootstrapping.N16QP1788H32768H32:bootstrapping", logN := 16, xsH := 32768, checked := true, above := false,
     q := [1152921504606584833, 35184372744193, 35184373006337, 35184368025601, 35184376545281, 35184377331713, 35184378511361, 35184379035649, 35184365273089, 35184380870657, 4398044938241, 4398043496449, 4398042972161, 1152921504614055937, 1152921504598720513, 1152921504615628801, 1152921504616808449, 1152921504597016577, 1152921504595968001, 1152921504618381313, 1152921504620347393, 1152921504592822273, 1152921504592429057, 1152921504622575617, 288230376155250689, 288230376147386369, 288230376158396417, 288230376160755713],
     p := [2305843009211596801, 2305843009210023937, 2305843009218281473, 2305843009208713217, 2305843009218936833] },
-  { name := "bootstrapping.N16QP1788H32768H32:ephemeral", logN := 16, xsH := 32,
+  { name := "bootstrapping.N16QP1788H32768H32:ephemeral", logN := 16, xsH := 32, checked := false, above := false,
     q := [1152921504606584833],
     p := [2305843009211596801] },
-  { name := "bootstrapping.N16QP1793H32768H32:residual", logN := 16, xsH := 32768,
+  { name := "bootstrapping.N16QP1793H32768H32:residual", logN := 16, xsH := 32768, checked := true, above := false,
     q := [36028797019488257, 1152921504606584833, 1152921504614055937, 1152921504598720513, 1152921504615628801, 1152921504616808449, 1152921504597016577, 1152921504595968001, 1152921504618381313, 1152921504620347393, 1152921504592822273, 1152921504592429057, 1152921504622575617, 1073872897],
     p := [2305843009211596801, 2305843009210023937, 2305843009208713217, 2305843009202159617, 2305843009201242113] },
-  { name := "bootstrapping.N16QP1793H32768H32:bootstrapping", logN := 16, xsH := 32768,
+  { name := "bootstrapping.N16QP1793H32768H32:bootstrapping", logN := 16, xsH := 32768, checked := true, above := true,
     q := [36028797019488257, 1152921504606584833, 1152921504614055937, 1152921504598720513, 1152921504615628801, 1152921504616808449, 1152921504597016577, 1152921504595968001, 1152921504618381313, 1152921504620347393, 1152921504592822273, 1152921504592429057, 1152921504622575617, 1073872897, 1152921504589938689, 1152921504625328129, 36028797023420417, 36028797014376449, 36028797024206849, 36028797013327873, 36028797025124353, 36028797010444289, 36028797032202241, 36028797005856769, 9007199255658497, 9007199256051713, 9007199257362433, 9007199252119553],
     p := [2305843009211596801, 2305843009210023937, 2305843009218281473, 2305843009208713217, 2305843009218936833] },
-  { name := "bootstrapping.N16QP1793H32768H32:ephemeral", logN := 16, xsH := 32,
+  { name := "bootstrapping.N16QP1793H32768H32:ephemeral", logN := 16, xsH := 32, checked := false, above := false,
     q := [36028797019488257],
     p := [2305843009211596801] },
-  { name := "bootstrapping.N15QP880H16384H32:residual", logN := 15, xsH := 16384,
+  { name := "bootstrapping.N15QP880H16384H32:residual", logN := 15, xsH := 16384, checked := true, above := false,
     q := [1099512938497, 2147352577, 2146959361, 2148728833, 2148794369],
     p := [72057594038321153, 72057594037338113] },
-  { name := "bootstrapping.N15QP880H16384H32:bootstrapping-with-LogN15", logN := 15, xsH := 16384,
+  { name := "bootstrapping.N15QP880H16384H32:bootstrapping-with-LogN15", logN := 15, xsH := 16384, checked := true, above := true,
     q := [1099512938497, 2147352577, 2146959361, 2148728833, 2148794369, 1152921504606584833, 36028797019488257, 36028797020209153, 36028797017456641, 36028797020602369, 36028797020864513, 36028797023420417, 36028797014704129, 36028797014573057, 4503599627763713, 4503599628353537],
     p := [2305843009214414849, 2305843009211662337, 2305843009211596801, 2305843009211400193] },
-  { name := "bootstrapping.N15QP880H16384H32:ephemeral", logN := 15, xsH := 32,
+  { name := "bootstrapping.N15QP880H16384H32:ephemeral", logN := 15, xsH := 32, checked := false, above := false,
     q := [1099512938497],
     p := [2305843009214414849] }
 ]
 -- END GENERATED exportedSets
-
-/-- names whose actual modulus is above the table (the findings of `exported_within_table`);
-    `…:ephemeral` rows are informational (encapsulation-key modulus vs an example comment). -/
-def knownAboveTable : List String := [
-  "bootstrapping.N16QP1793H32768H32:bootstrapping",
-  "bootstrapping.N15QP768H192H32:bootstrapping-with-LogN15",
-  "bootstrapping.N15QP880H16384H32:bootstrapping-with-LogN15"]
-
-def isEphemeralRow (name : String) : Bool := name.endsWith ":ephemeral"
 
 /-! ## executable oracles -/
 
